@@ -259,44 +259,80 @@ class Func:
             return ds[0]
         return None
 
-    def root_of(self, op, depth=12):
-        """Follow single-def temporaries through use/copy/move/ref/deref-free chains.
-        Returns ('place', place) | ('const', c) | ('call', bb, term) | ('rv', bb, si, stmt)."""
+    SEE_THROUGH = ("::deref", "::deref_mut", "::as_ref", "::as_mut", "::borrow", "::as_str", "::as_slice",
+                   "::as_path", "::as_mut_slice")
+
+    def root_of(self, op, depth=24, through_named=False, through_deref_calls=True):
+        """Resolve an operand through single-definition temporaries, composing projections.
+        `_4 = &(*_3); _3 = &((*_5).1); _5 = copy (*_2)`  resolves _4 to the place (*_2).1.
+        Smart-pointer accessor calls (Deref::deref, as_ref, ...) are looked through when the
+        result is only dereferenced. Stops at arguments, at named locals (unless through_named),
+        at constants, calls and non-trivial rvalues.
+        Returns ('place', place) | ('const', c) | ('call', bb, term) | ('rv', bb, si, stmt) | ('unknown', op)."""
+        c = op_const(op)
+        if c is not None:
+            return ("const", c)
+        p = op_place(op)
+        if p is None:
+            return ("unknown", op)
+        cur = {"l": p["l"], "p": list(p["p"])}
         for _ in range(depth):
-            c = op_const(op)
-            if c is not None:
-                return ("const", c)
-            p = op_place(op)
-            if p is None:
-                return ("unknown", op)
-            if p["p"] or p["l"] <= self.argc or self.local_name(p["l"]):
-                # named local / argument / projected place: stop here
-                if not p["p"] and not self.local_name(p["l"]) and p["l"] > self.argc:
-                    pass
-                else:
-                    return ("place", p)
-            d = self.single_def(p["l"])
+            l = cur["l"]
+            if l <= self.argc or (self.local_name(l) and not through_named):
+                return ("place", cur)
+            d = self.single_def(l)
             if d is None:
-                return ("place", p)
+                return ("place", cur)
             bi, si, st = d
             if si == "term":
+                n = callee_name(st) or ""
+                if through_deref_calls and st["args"] and n.endswith(self.SEE_THROUGH) and cur["p"] and cur["p"][0] == "deref":
+                    a = st["args"][0]
+                    ap = op_place(a)
+                    if ap is None:
+                        return ("call", bi, st)
+                    # the accessor returns a reference into its argument's referent
+                    cur = {"l": ap["l"], "p": list(ap["p"]) + cur["p"]}
+                    continue
+                if cur["p"]:
+                    return ("place", cur)
                 return ("call", bi, st)
             rv = st["rv"]
             if rv["k"] == "use":
-                op = rv["a"]
+                c = op_const(rv["a"])
+                if c is not None:
+                    if cur["p"]:
+                        return ("place", cur)
+                    return ("const", c)
+                q = op_place(rv["a"])
+                if q is None:
+                    return ("place", cur)
+                cur = {"l": q["l"], "p": list(q["p"]) + cur["p"]}
                 continue
-            if rv["k"] == "ref":
-                # &place: treat as the place itself
-                pl = rv["place"]
-                op = {"copy": pl}
-                if pl["p"] or self.local_name(pl["l"]) or pl["l"] <= self.argc:
-                    return ("place", pl)
+            if rv["k"] == "ref" or rv["k"] == "rawptr":
+                q = rv["place"]
+                if cur["p"] and cur["p"][0] == "deref":
+                    cur = {"l": q["l"], "p": list(q["p"]) + cur["p"][1:]}
+                elif not cur["p"]:
+                    # the reference value itself: reference-insensitive, stands for the place
+                    cur = {"l": q["l"], "p": list(q["p"])}
+                else:
+                    return ("place", cur)
                 continue
-            if rv["k"] == "cast" and rv["ck"].startswith("PointerCoercion"):
-                op = rv["a"]
+            if rv["k"] == "cast" and (rv["ck"].startswith("PointerCoercion") or rv["ck"] == "Transmute"):
+                q = op_place(rv["a"])
+                if q is None:
+                    return ("place", cur)
+                cur = {"l": q["l"], "p": list(q["p"]) + cur["p"]}
                 continue
+            if cur["p"]:
+                return ("place", cur)
             return ("rv", bi, si, st)
-        return ("unknown", op)
+        return ("place", cur)
+
+    def field_path(self, place):
+        """names of the named fields along a place (derefs/downcasts skipped)."""
+        return [e.get("name") for e in place["p"] if isinstance(e, dict) and "name" in e]
 
     def calls(self):
         for bi, b in enumerate(self.blocks):
